@@ -365,9 +365,9 @@ fn c04_ts_pair(dk: u8, tk: u8) {
     std::mem::forget(fmt);
 }
 
-//@ unit c04_interval_ym prop=C04,C03 unwind=14 mem=5 timeout=1500 stubs=crate::util::try_format=>crate::verif_support::stub_try_format bound="IntervalYM: every value, pictures YYYY (any of Y..YYYY), MM and YYYY-MM: one leading sign, years zero-padded to the token width (never truncated), 2-digit months"
-fn c04_interval_ym() {
-    let v = any_i32_in(-YM_MAX, YM_MAX);
+//@ unit c04_interval_ym prop=C04,C03 chunks=ints:1/ints:1,0 quick=all unwind=14 mem=5 timeout=1500 stubs=crate::util::try_format=>crate::verif_support::stub_try_format bound="IntervalYM: every value (parameter 1 = quick tier: at most 9999 years), pictures YYYY (any of Y..YYYY), MM and YYYY-MM: one leading sign, years zero-padded to the token width (never truncated), 2-digit months"
+fn c04_interval_ym(small: i32) {
+    let v = if small == 1 { any_i32_in(-119_999, 119_999) } else { any_i32_in(-YM_MAX, YM_MAX) };
     let x = mk_ym(v);
     let mag = (v as i64).abs() as u32;
     let (yy, mm) = (mag / 12, mag % 12);
@@ -382,14 +382,19 @@ fn c04_interval_ym() {
     r.byte(b'-');
     r.num(mm, 2);
     assert!(r.done());
-    kani::cover!(v < 0 && yy >= 100_000_000);
+    kani::cover!(v < 0 && (yy >= 100_000_000 || small == 1));
     kani::cover!(v == 0);
     std::mem::forget(fmt);
 }
 
-//@ unit c04_interval_dt q23=1 prop=C04,C03 chunks=range:0:5 quickn=2 unwind=14 mem=6 timeout=1800 stubs=crate::util::try_format=>crate::verif_support::stub_try_format,crate::interval::IntervalDT::extract=>crate::format::verif_h_fmt_fields::stub_dt_extract bound="IntervalDT: every value (sign and fields), picture = DD then the token given by the parameter (0 none, 1 HH24, 2 MI, 3 SS, 4 FF, 5 FF3): one leading sign, days at least 2 digits, fields as for times"
-fn c04_interval_dt(kind: u8) {
+//@ unit c04_interval_dt q23=1 prop=C04,C03 chunks=tuples:5,1;0,1/tuples:0,0;1,0;2,0;3,0;4,0;5,0;5,1;0,1 quick=all unwind=14 mem=6 timeout=1800 stubs=crate::util::try_format=>crate::verif_support::stub_try_format,crate::interval::IntervalDT::extract=>crate::format::verif_h_fmt_fields::stub_dt_extract bound="IntervalDT: every value (sign and fields), picture = DD then the token given by the first parameter; second parameter 1 restricts the day count to 0..=40 (quick tier), 0 = every value (0 none, 1 HH24, 2 MI, 3 SS, 4 FF, 5 FF3): one leading sign, days at least 2 digits, fields as for times"
+fn c04_interval_dt(kind: u8, small: u8) {
     let (v, (neg, d, h, mi, s, us)) = ghost_dt();
+    if small == 1 {
+        // quick tier: day counts around the 2-digit table limit (the decimal fallback beyond 31
+        // goes through core::fmt, which is what makes the unrestricted unit take 15-20 min)
+        kani::assume(d <= 40);
+    }
     let second = match kind {
         0 => Field::Blank(1),
         1 => Field::Hour24,
@@ -414,7 +419,7 @@ fn c04_interval_dt(kind: u8) {
         _ => r.num(us / 1000, 3),
     }
     assert!(r.done());
-    kani::cover!(neg && d == 100_000_000);
+    kani::cover!(neg && (d == 100_000_000 || small == 1));
     kani::cover!(d == 31);
     kani::cover!(d == 32);
     std::mem::forget(fmt);
@@ -424,8 +429,8 @@ fn is_format_err<T>(r: &Result<T>) -> bool {
     matches!(r, Err(Error::FormatError(_)))
 }
 
-//@ unit c04_inapplicable q23=1 prop=C04,C03 unwind=12 mem=6 timeout=1800 stubs=crate::util::try_format=>crate::verif_support::stub_try_format,crate::common::julian2date=>crate::verif_support::ghost_julian2date,crate::time::Time::extract=>crate::format::verif_h_fmt_fields::stub_time_extract,crate::timestamp::Timestamp::extract=>crate::verif_support::stub_ts_extract,crate::timestamp::Timestamp::date=>crate::verif_support::stub_ts_date,crate::timestamp::Timestamp::time=>crate::verif_support::stub_ts_time,crate::interval::IntervalDT::extract=>crate::format::verif_h_fmt_fields::stub_dt_extract bound="every type x every field kind (symbolic): a token that does not apply to the value's type yields Err(FormatError) and no panic; an applicable one yields Ok"
-fn c04_inapplicable() {
+//@ unit c04_inapplicable q23=1 prop=C04,C03 chunks=range:0:5 quick=all unwind=12 mem=6 timeout=1800 stubs=crate::util::try_format=>crate::verif_support::stub_try_format,crate::common::julian2date=>crate::verif_support::ghost_julian2date,crate::time::Time::extract=>crate::format::verif_h_fmt_fields::stub_time_extract,crate::timestamp::Timestamp::extract=>crate::verif_support::stub_ts_extract,crate::timestamp::Timestamp::date=>crate::verif_support::stub_ts_date,crate::timestamp::Timestamp::time=>crate::verif_support::stub_ts_time,crate::interval::IntervalDT::extract=>crate::format::verif_h_fmt_fields::stub_dt_extract bound="type = the parameter (0 Date, 1 Time, 2 Timestamp, 3 IntervalYM, 4 IntervalDT, 5 OracleDate) x every field kind (symbolic): a token that does not apply to the value's type yields Err(FormatError) and no panic; an applicable one yields Ok"
+fn c04_inapplicable(ty: u8) {
     let which: u8 = kani::any();
     kani::assume(which < 40);
     let f = if which < 22 { date_field(which) } else { time_field(which - 22) };
@@ -435,8 +440,6 @@ fn c04_inapplicable() {
     let is_dd = which == 5;
     let is_frac = which >= 30;
     let is_hh12_or_ampm = which == 23 || (which >= 26 && which <= 29);
-    let ty: u8 = kani::any();
-    kani::assume(ty < 6);
     let fmt = one_field(f);
     let mut sink: Sink<48> = Sink::new();
     let (x, _) = ghost_date(1, 9999);
@@ -480,8 +483,8 @@ fn c04_inapplicable() {
             assert!(r.is_ok() || is_format_err(&r));
         }
     }
-    kani::cover!(ty == 5 && is_frac);
-    kani::cover!(ty == 4 && is_hh12_or_ampm);
-    kani::cover!(ty == 3 && is_mm);
+    kani::cover!(is_frac);
+    kani::cover!(is_hh12_or_ampm);
+    kani::cover!(is_mm);
     std::mem::forget(fmt);
 }
